@@ -4,6 +4,7 @@ import (
 	"verifharness/drv"
 
 	"bytes"
+	"context"
 	"encoding/json"
 	"errors"
 	"fmt"
@@ -11,6 +12,7 @@ import (
 	"reflect"
 	"runtime/debug"
 	"strings"
+	"time"
 
 	"github.com/open2b/scriggo"
 	"github.com/open2b/scriggo/native"
@@ -20,7 +22,8 @@ import (
 //
 // Two kinds of case, both exported by TLC:
 //
-//	{id, kind:"fault", fault, situation, form}   (spec/faults/MC_Faults.tla)
+//	{id, kind:"fault", fault, situation, form, opt}   (spec/faults/MC_Faults.tla; opt = run options: "none" | "cancelable")
+//	{id, kind:"show", value, ctx, box}                (spec/faults/MC_Faults.tla: odd values x template contexts)
 //	{id, kind:"url", attr, items:[[k, piece]...]} (spec/faults/MC_URLState.tla; k 0 = text, 1 = shown value)
 //
 // For a fault case the driver writes ONE program (or template) from string templates: the statements
@@ -171,6 +174,10 @@ func init() {
 	// finite recursion (gc runs it; the register stack of the VM must grow)
 	faults["recursion_1000"] = fault{decl: "func rec(n int) {\n\tif n == 0 {\n\t\treturn\n\t}\n\trec(n - 1)\n}", stmt: "rec(1000)"}
 	faults["recursion_1000_result"] = fault{decl: "func rec(n int) int {\n\tif n == 0 {\n\t\treturn 0\n\t}\n\treturn 1 + rec(n-1)\n}", stmt: "_ = rec(1000)"}
+	// the run is ended by a native function that calls env.Stop(err) (documented: Run returns err; deferred calls do not run)
+	def("stop_native", "", "$HStop()", "$HStopV()")
+	def("stop_in_callback", "", "$HCall(func() { $HStop() })", "")
+	def("stop_after_recovered_panic", "", "func() { defer func() { recover() }(); panic(\"x\") }(); $HStop()", "")
 	// no fault at all (baseline of every situation and form)
 	def("nofault", "v := 1", "_ = v", "v")
 	// values that cannot be shown (template only)
@@ -196,6 +203,9 @@ func (myRT) RuntimeError() {}
 
 var errHost = errors.New("host error value")
 
+// errStop is the error given to env.Stop by the Stop / StopV natives.
+var errStop = errors.New("stopped by the host")
+
 func hostDecls() native.Declarations {
 	rt := func() { var m map[string]int; m["a"] = 1 }
 	e := errHost
@@ -213,6 +223,8 @@ func hostDecls() native.Declarations {
 		"PanicMyRT": func() { panic(myRT{}) },
 		"PanicVar":  func(a ...int) { panic(fmt.Sprint(a)) },
 		"Call":      func(f func()) { f() },
+		"Stop":      func(env native.Env) { env.Stop(errStop) },
+		"StopV":     func(env native.Env) int { env.Stop(errStop); return 0 },
 	}
 }
 
@@ -284,10 +296,57 @@ func program(f fault, situation, form string) (string, bool) {
 		b.WriteString("func main() {\n" + body(rOut, "g := f", "g()", `print("after")`) + "}\n")
 	case "funcvar_lit":
 		b.WriteString("func main() {\n" + body(rOut, "g := func() {\n"+body(rIn, setup, stmt)+"\t}", "g()", `print("after")`) + "}\n")
+	case "seq_a", "seq_b", "seq_c", "seq_d":
+		// multi-step panic / recover sequences (form "recover": the first deferred call of main recovers at the end)
+		if rOut != "" {
+			return "", false
+		}
+		b.WriteString(seqBody(situation, rIn, setup, stmt, "func inner() {", "}\n\nfunc main() {", "}\n"))
 	default:
 		return "", false
 	}
 	return b.String(), true
+}
+
+// seqBody writes the multi-step sequences:
+//
+//	seq_a: the fault is raised in main; while it is in flight a deferred call calls inner(), which raises and
+//	       recovers an unrelated panic; then an earlier deferred call recovers (form "recover").
+//	seq_b: main panics with "A"; a deferred call calls inner(), in which the fault is raised and recovered.
+//	seq_c: main panics with "A"; a deferred call raises the fault itself (it replaces "A").
+//	seq_d: main panics with "A"; a deferred call recovers "A" and then raises the fault.
+func seqBody(situation, rIn, setup, stmt, openInner, between, closeMain string) string {
+	ln := func(ind int, parts ...string) string {
+		var b strings.Builder
+		for _, p := range parts {
+			if p != "" {
+				b.WriteString(strings.Repeat("\t", ind) + p + "\n")
+			}
+		}
+		return b.String()
+	}
+	var b strings.Builder
+	b.WriteString(openInner + "\n")
+	b.WriteString(ln(1, "defer func() { recover() }()"))
+	if situation == "seq_b" {
+		b.WriteString(ln(1, setup, stmt))
+	} else {
+		b.WriteString(ln(1, `panic("B")`))
+	}
+	b.WriteString(between + "\n")
+	b.WriteString(ln(1, rIn))
+	switch situation {
+	case "seq_a":
+		b.WriteString(ln(1, "defer func() { inner() }()", setup, stmt, `print("after")`))
+	case "seq_b":
+		b.WriteString(ln(1, "defer func() { inner() }()", `panic("A")`))
+	case "seq_c":
+		b.WriteString(ln(1, "defer func() {") + ln(2, setup, stmt) + ln(1, "}()", `panic("A")`))
+	case "seq_d":
+		b.WriteString(ln(1, "defer func() {") + ln(2, "recover()", setup, stmt) + ln(1, "}()", `panic("A")`))
+	}
+	b.WriteString(closeMain)
+	return b.String()
 }
 
 // template returns the source of index.html for (fault, situation, form).
@@ -352,6 +411,12 @@ func template(f fault, situation, form string) (string, bool) {
 			return "", false
 		}
 		return "a{% macro M %}" + stmts(setup) + "b" + stmts(stmt) + "c{% end %}d{{ M() }}e", true
+	case "tmpl_seq_a", "tmpl_seq_b", "tmpl_seq_c", "tmpl_seq_d":
+		// the same sequences with function literals in a {%% %%} block
+		if stmt == "" {
+			return "", false
+		}
+		return "a{%%\n" + seqBody(situation[len("tmpl_"):], rIn, setup, stmt, "inner := func() {", "}\nfunc() {", "}()\n") + "%%}c", true
 	case "tmpl_macro_block":
 		if stmt == "" {
 			return "", false
@@ -389,6 +454,12 @@ func runUnderRecover(run func() error) (outcome, msg string) {
 	if err == nil {
 		return "nil", ""
 	}
+	if err == error(errStop) { // identity: the very value given to env.Stop
+		return "stoperr", ""
+	}
+	if errors.Is(err, context.Canceled) || errors.Is(err, context.DeadlineExceeded) {
+		return "ctxerr", ""
+	}
 	var pe *scriggo.PanicError
 	if errors.As(err, &pe) {
 		return "panicerror", pe.String()
@@ -397,8 +468,18 @@ func runUnderRecover(run func() error) (outcome, msg string) {
 }
 
 func buildRun(src string, tmpl bool, vars map[string]any, extraGlobals native.Declarations) (res result) {
+	return buildRunOpt(src, "index.html", tmpl, vars, extraGlobals, "none")
+}
+
+// buildRunOpt builds and runs; opt "cancelable" passes a cancelable (never canceled) context in the run options.
+func buildRunOpt(src, name string, tmpl bool, vars map[string]any, extraGlobals native.Declarations, opt string) (res result) {
 	var printed strings.Builder
 	ro := &scriggo.RunOptions{Print: func(v any) { fmt.Fprint(&printed, v) }}
+	if opt == "cancelable" {
+		ctx, cancel := context.WithCancel(context.Background())
+		defer cancel()
+		ro.Context = ctx
+	}
 	decls := hostDecls()
 	var run func() error
 	var out bytes.Buffer
@@ -416,7 +497,7 @@ func buildRun(src string, tmpl bool, vars map[string]any, extraGlobals native.De
 			for k, v := range extraGlobals {
 				g[k] = v
 			}
-			t, err := scriggo.BuildTemplate(scriggo.Files{"index.html": []byte(src)}, "index.html", &scriggo.BuildOptions{Globals: g})
+			t, err := scriggo.BuildTemplate(scriggo.Files{name: []byte(src)}, name, &scriggo.BuildOptions{Globals: g})
 			if err != nil {
 				return err
 			}
@@ -459,12 +540,19 @@ type c05Case struct {
 	Form      string  `json:"form"`
 	Attr      string  `json:"attr"`
 	Items     [][]any `json:"items"`
+	Opt       string  `json:"opt"`
+	Value     string  `json:"value"`
+	Ctx       string  `json:"ctx"`
+	Box       string  `json:"box"`
 	Src       string  `json:"src"`  // kind "raw" (used by hand to minimise a finding): the source itself
 	Tmpl      bool    `json:"tmpl"` // kind "raw": template (index.html) or program (main.go)
 }
 
 func faultCase(k *c05Case) map[string]any {
-	o := map[string]any{"id": k.ID, "kind": "fault", "fault": k.Fault, "situation": k.Situation, "form": k.Form}
+	if k.Opt == "" {
+		k.Opt = "none"
+	}
+	o := map[string]any{"id": k.ID, "kind": "fault", "fault": k.Fault, "situation": k.Situation, "form": k.Form, "opt": k.Opt}
 	f, ok := faults[k.Fault]
 	var src string
 	tmpl := strings.HasPrefix(k.Situation, "tmpl_")
@@ -480,7 +568,7 @@ func faultCase(k *c05Case) map[string]any {
 		o["outcome"], o["msg"], o["src"], o["printed"], o["recovered"] = "noconcretisation", "", "", "", false
 		return o
 	}
-	r := buildRun(src, tmpl, nil, nil)
+	r := buildRunOpt(src, "index.html", tmpl, nil, nil, k.Opt)
 	o["src"] = src
 	o["outcome"] = r.outcome
 	o["msg"] = clip(r.msg+r.builderr, 300)
@@ -547,6 +635,9 @@ func main() {
 			if k.Kind == "url" {
 				return []any{urlCase(&k)}
 			}
+			if k.Kind == "show" {
+				return []any{showCase(&k)}
+			}
 			if k.Kind == "raw" {
 				r := buildRun(subst(k.Src, k.Tmpl), k.Tmpl, nil, nil)
 				return []any{map[string]any{"id": k.ID, "kind": "raw", "outcome": r.outcome, "msg": clip(r.msg+r.builderr, 2000),
@@ -555,4 +646,182 @@ func main() {
 			return []any{faultCase(&k)}
 		},
 	})
+}
+
+// ------------------------------------------------------------------------------------ odd shown values
+
+type base struct{ ID int }
+
+// Item embeds a struct of a non-exported type; ItemP embeds a pointer to it.
+type Item struct {
+	base
+	Name string
+}
+type ItemP struct {
+	*base
+	Name string
+}
+type hidden struct{ a, b int }
+type Plain struct{ A int }
+type WithChan struct {
+	A int
+	C chan int
+}
+type WithFunc struct{ F func() }
+
+// VS has a value-receiver String method (calling it through a nil *VS faults in Go); PS a pointer-receiver one.
+type VS struct{ A int }
+
+func (v VS) String() string { return "vs" }
+
+type PS struct{ A int }
+
+func (p *PS) String() string { return "ps" }
+
+type Node struct {
+	V    int
+	Next *Node
+}
+
+// showValues returns the value registered under a name.  Values that would make the process die (not panic) are
+// not in the table: self-referencing pointers, maps and slices overflow the goroutine stack in showInJS/showInJSON.
+func showValue(name string) (any, bool) {
+	switch name {
+	case "embed_unexported":
+		return Item{base{1}, "n"}, true
+	case "embed_unexported_ptr":
+		return ItemP{&base{1}, "n"}, true
+	case "embed_unexported_nilptr":
+		return ItemP{nil, "n"}, true
+	case "ptr_embed_unexported":
+		return &Item{base{1}, "n"}, true
+	case "slice_embed_unexported":
+		return []Item{{base{1}, "n"}}, true
+	case "map_embed_unexported":
+		return map[string]Item{"k": {base{1}, "n"}}, true
+	case "unexported_fields_only":
+		return hidden{1, 2}, true
+	case "struct_chan_field":
+		return WithChan{1, make(chan int)}, true
+	case "struct_func_field":
+		return WithFunc{func() {}}, true
+	case "nil_ptr_time":
+		return (*time.Time)(nil), true
+	case "nil_ptr_value_stringer":
+		return (*VS)(nil), true
+	case "nil_ptr_ptr_stringer":
+		return (*PS)(nil), true
+	case "nil_ptr_struct":
+		return (*Plain)(nil), true
+	case "ptr_ptr_nil":
+		var p *Plain
+		return &p, true
+	case "chan":
+		return make(chan int), true
+	case "nil_chan":
+		return (chan int)(nil), true
+	case "func":
+		return func() {}, true
+	case "nil_func":
+		return (func())(nil), true
+	case "complex":
+		return complex(1, 2), true
+	case "nil_map":
+		return (map[string]int)(nil), true
+	case "nil_slice":
+		return ([]int)(nil), true
+	case "map_int_key":
+		return map[int]string{1: "a"}, true
+	case "map_any_key":
+		return map[any]int{[2]int{1, 2}: 1, "s": 2}, true
+	case "map_struct_key":
+		return map[Plain]int{{1}: 1}, true
+	case "slice_any_chan":
+		return []any{1, make(chan int)}, true
+	case "slice_nil_ptr_stringer":
+		return []any{(*VS)(nil), (*time.Time)(nil)}, true
+	case "map_value_nil_ptr_time":
+		return map[string]*time.Time{"t": nil}, true
+	case "array_of_struct":
+		return [2]Plain{{1}, {2}}, true
+	case "list_node":
+		return &Node{1, &Node{2, nil}}, true
+	case "error_nil_ptr":
+		return error((*ptrErr)(nil)), true
+	case "zero_time":
+		return time.Time{}, true
+	case "duration":
+		return time.Duration(0), true
+	case "cyclic_ptr": // only when asked by hand / by the isolated probe of checks/c05.py: may kill the process
+		n := &Node{V: 1}
+		n.Next = n
+		return n, true
+	case "cyclic_map":
+		m := map[string]any{}
+		m["self"] = m
+		return m, true
+	case "cyclic_slice":
+		sl := []any{nil}
+		sl[0] = sl
+		return sl, true
+	}
+	return nil, false
+}
+
+type ptrErr struct{ msg string }
+
+func (e *ptrErr) Error() string { return "ptrErr" }
+
+// showContexts: the template file and source for every context ({{ v }} marks the show).
+var showContexts = map[string][2]string{
+	"text":        {"index.txt", "a {{ v }} b"},
+	"html":        {"index.html", "<p>{{ v }}</p>"},
+	"tag":         {"index.html", "<div {{ v }}>x</div>"},
+	"qattr":       {"index.html", `<div title="{{ v }}">x</div>`},
+	"uattr":       {"index.html", `<div title={{ v }}>x</div>`},
+	"css":         {"index.css", "a{width:{{ v }}}"},
+	"cssstr":      {"index.css", `a{content:"{{ v }}"}`},
+	"js":          {"index.js", "var x = {{ v }};"},
+	"jsstr":       {"index.js", `var x = "{{ v }}";`},
+	"json":        {"index.json", `{"a":{{ v }}}`},
+	"jsonstr":     {"index.json", `{"a":"{{ v }}"}`},
+	"md":          {"index.md", "text {{ v }}\n"},
+	"tabcode":     {"index.md", "p\n\n\t{{ v }}\n"},
+	"spacescode":  {"index.md", "p\n\n    {{ v }}\n"},
+	"urlq":        {"index.html", `<a href="{{ v }}">x</a>`},
+	"urlquery":    {"index.html", `<a href="/p?a={{ v }}&b=1">x</a>`},
+	"urlset":      {"index.html", `<img srcset="{{ v }} 2x">`},
+	"html.script": {"index.html", "<script>var x = {{ v }};</script>"},
+	"html.jsstr":  {"index.html", `<script>var x = '{{ v }}';</script>`},
+	"html.ldjson": {"index.html", `<script type="application/ld+json">{"a":{{ v }}}</script>`},
+	"html.style":  {"index.html", "<style>a{width:{{ v }}}</style>"},
+	"js.macro":    {"index.js", "{% macro M %}{{ v }}{% end %}var x = {{ M() }};"},
+	"json.for":    {"index.json", `[{% for i := 0; i < 2; i++ %}{{ v }}{% if i == 0 %},{% end %}{% end %}]`},
+}
+
+// showCase shows the value `value` in the context `ctx`; box "static": the global v has the value's own type,
+// box "any": it has type any (the show is checked at run time only).
+func showCase(k *c05Case) map[string]any {
+	o := map[string]any{"id": k.ID, "kind": "show", "value": k.Value, "ctx": k.Ctx, "box": k.Box}
+	val, ok1 := showValue(k.Value)
+	cx, ok2 := showContexts[k.Ctx]
+	if !ok1 || !ok2 || k.Box != "static" && k.Box != "any" {
+		o["outcome"], o["msg"], o["src"], o["out"] = "noconcretisation", "", "", ""
+		return o
+	}
+	var decl any
+	if k.Box == "any" {
+		x := val
+		decl = &x
+	} else {
+		p := reflect.New(reflect.TypeOf(val))
+		p.Elem().Set(reflect.ValueOf(val))
+		decl = p.Interface()
+	}
+	r := buildRunOpt(cx[1], cx[0], true, nil, native.Declarations{"v": decl}, "none")
+	o["src"] = cx[1]
+	o["outcome"] = r.outcome
+	o["msg"] = clip(r.msg+r.builderr, 300)
+	o["out"] = clip(string(r.out), 200)
+	return o
 }
